@@ -6262,6 +6262,9 @@ class CodegenCtx:
                 empty_result = f"{self.program_name.upper()}_OK"
                 if self.generic_fail_state in self.dfa.states:
                     empty_result = f"(state->state == {self.dfa.states.index(self.generic_fail_state)} ? {self.program_name.upper()}_FAIL : {self.program_name.upper()}_OK)"
+                elif ProgramData.do(ProgramFlag.EOF_SUPPORT):
+                    # (no byte can fail, but end() can: it leaves such a parser just beyond the last state)
+                    empty_result = f"(state->state == {len(self.dfa.states)} ? {self.program_name.upper()}_FAIL : {self.program_name.upper()}_OK)"
                 contents.add(f"if ({'*start' if ProgramData.do(ProgramFlag.INDIRECT_START_PTR) else 'start'} == end) return {empty_result};")
                 contents.add()
                 # Generate an explicit input check 
